@@ -11,8 +11,11 @@
    AccountingTestMemoryAllocator around each of the three allocators).  The wrapper hands the request to the allocator it
    wraps unchanged and returns that allocator's pointer unchanged (C05_Wrapper.v: model of the wrapper and the proof of this
    transparency), so blocks, layout, contents and totals are those of the same scenario without wrappers; only the
-   sequence of underlying calls differs (the wrapper's own nodes), and [spec] then reads from a call log only whether a call
-   failed.  No proofs in this file. *)
+   sequence of underlying calls differs (the wrapper's own tracking nodes, the accountant's statistics nodes).  [run] does not
+   predict those extra calls, hence not which operation a fault index hits once the wrappers are installed: a wrapper scenario
+   with fault indices is judged by [spec] alone (checks/C05.py compares only the header of the two observations), and [spec]
+   then reads from a call log whether a call other than a request for a statistics node failed, whether such a request failed,
+   and whether everything a failed operation obtained, statistics nodes apart, was given back.  No proofs in this file. *)
 From Coq Require Import NArith Bool List.
 From CppUVerif Require Import gen.Gen_Common gen.Gen_C05 lib.Str.
 Import ListNotations.
@@ -294,18 +297,31 @@ Fixpoint release_all (s : st) (bs : list block) (rep : N) : st * N :=
   | [] => (s, rep)
   | b :: r => let '(s', _, k) := release s b in release_all s' r (rep + k)
   end.
+(* regions of the underlying allocator still held after that: those of the blocks whose release was refused ("non-allocated
+   memory": the memory is not returned).  Every other region the model obtains belongs to a live block or is given back
+   within the operation that obtained it. *)
+Fixpoint leak_all (s : st) (bs : list block) (acc : N) : N :=
+  match bs with
+  | [] => acc
+  | b :: r => let '(s', _, k) := release s b in leak_all s' r (acc + k * (if b_sep b then 2 else 1))
+  end.
 
 (* [sc_wrap]: memory accounting on (the accounting wrapper allocators installed) *)
 Record scenario := { sc_cfg : cfg; sc_wrap : bool; sc_fail : list N; sc_ops : list op }.
 (* [ob_end_live]: id and content digest of every block still live after the last operation (newest first), read before the
    harness releases them *)
-Record obs := { ob_guard : bool; ob_ns : N; ob_wrap : bool; ob_ops : list oobs; ob_end_live : list (N * list N); ob_end_total : N; ob_end_rep : N }.
+(* [ob_faults]: the scenario names fault points (echo); [ob_end_leak]: regions of the underlying allocator still allocated after
+   every block has been released and, with the wrappers installed, the accountant has been stopped and destroyed *)
+Record obs := { ob_guard : bool; ob_ns : N; ob_wrap : bool; ob_faults : bool; ob_ops : list oobs; ob_end_live : list (N * list N);
+                ob_end_total : N; ob_end_rep : N; ob_end_leak : N }.
 
+Definition no_faults (f : list N) : bool := match f with [] => true | _ => false end.
 Definition run_v (v : variant) (sc : scenario) : obs :=
   let '(s, os) := steps v (sc_cfg sc) (sc_fail sc) st0 0 (sc_ops sc) in
   let '(s', rep) := release_all s (s_blocks s) 0 in
-  {| ob_guard := guard_on (sc_cfg sc); ob_ns := node_size (sc_cfg sc); ob_wrap := sc_wrap sc; ob_ops := os;
-     ob_end_live := map (fun b => (b_id b, digest (b_data b))) (s_blocks s); ob_end_total := total s'; ob_end_rep := rep |}.
+  {| ob_guard := guard_on (sc_cfg sc); ob_ns := node_size (sc_cfg sc); ob_wrap := sc_wrap sc; ob_faults := negb (no_faults (sc_fail sc));
+     ob_ops := os; ob_end_live := map (fun b => (b_id b, digest (b_data b))) (s_blocks s); ob_end_total := total s'; ob_end_rep := rep;
+     ob_end_leak := leak_all s (s_blocks s) 0 |}.
 Definition run := run_v fixed.
 
 (* ---- validity of a scenario: sizes are size_t values, bytes are bytes ---- *)
@@ -319,12 +335,9 @@ Definition valid_op (o : op) : bool :=
   | OFree _ => true
   | OWrite _ off bytes => is_bytes bytes && (off <? W)
   end.
-(* fault points are call indices of the underlying allocator; with the wrappers installed the indices would also count the
-   wrappers' own requests, whose failure the wrapper does not survive (it dereferences the NULL node): wrapper scenarios carry
-   no fault points (requests above 1 MiB are still refused) *)
-Definition no_faults (f : list N) : bool := match f with [] => true | _ => false end.
-Definition valid (sc : scenario) : bool :=
-  valid_cfg (sc_cfg sc) && forallb valid_op (sc_ops sc) && (negb (sc_wrap sc) || no_faults (sc_fail sc)).
+(* fault points are call indices of the underlying allocator; with the wrappers installed the indices also count the wrappers'
+   own requests (tracking nodes, statistics nodes), which the repaired wrapper survives: any fault points, wrappers or not *)
+Definition valid (sc : scenario) : bool := valid_cfg (sc_cfg sc) && forallb valid_op (sc_ops sc).
 
 (* =====================================================================================================================
    spec: what the property demands of an observation.  Model-free: it follows only the abstract meaning of the operations
@@ -357,20 +370,31 @@ Definition layout_ok (c : cfg) (n : N) (o : oobs) : bool :=
 Definition call_ok (c : cfg) (n : N) (x : call) : bool :=
   (fst (fst x) =? 2) || (snd (fst x) =? node_size c) || (n + G c <=? snd (fst x)).
 Definition calls_ok (c : cfg) (n : N) (cs : list call) : bool := forallb (call_ok c n) cs.
+(* ---- with the accounting wrappers installed ---- *)
+(* a request for a statistics node of the accountant (MemoryAccountantAllocationNode): serving the caller does not depend on it *)
+Definition is_stat (x : call) : bool := (fst (fst x) =? 0) && (snd (fst x) =? c05_accountant_node_size).
+(* a failed call other than a request for a statistics node / a failed request for a statistics node *)
+Definition hard_failed (cs : list call) : bool := existsb (fun x : call => negb (snd x) && negb (is_stat x)) cs.
+Definition stat_failed (cs : list call) : bool := existsb (fun x : call => negb (snd x) && is_stat x) cs.
+(* a failed request keeps nothing but statistics nodes (they stay with the accountant until it is cleared): no more is given
+   back than was obtained, and everything obtained is given back except at most the statistics nodes obtained *)
+Definition stat_got (cs : list call) : N := N.of_nat (length (filter (fun x : call => is_stat x && snd x) cs)).
+Definition wbalanced (cs : list call) : bool := (got cs - stat_got cs <=? freed cs) && (freed cs <=? got cs).
 Fixpoint list_eqb (a b : list N) : bool :=
   match a, b with [], [] => true | x :: a', y :: b' => (x =? y) && list_eqb a' b' | _, _ => false end.
 
 (* an allocation-like request of [n] bytes (mathematical size) whose content must be [content tt].
-   [w]: the accounting wrappers are installed; the call log then also holds the wrappers' own requests (and a wrapper keeps
-   its node for a request that failed), so the two clauses about the sizes and the balance of the underlying calls are not
-   demanded; everything else -- kind of result, alignment, disjointness, layout inside the region, content, totals, reports,
-   NULL only with a cause, no pointer after a failed call -- is demanded unchanged *)
+   [w]: the accounting wrappers are installed; the call log then also holds the wrappers' own requests (a tracking node per
+   block, a statistics node per size), so the clause about the sizes of the underlying calls is not demanded, a pointer may
+   come although a request for a statistics node failed (never after any other failed call), and a failed request may keep
+   statistics nodes but nothing else.  Everything else -- kind of result, alignment, disjointness, layout inside the region,
+   content, totals, reports, NULL only with a cause -- is demanded unchanged *)
 Definition spec_alloc (w : bool) (c : cfg) (throwing : bool) (n : N) (content : unit -> list N) (before after_ok : N) (fail_dig : list N) (o : oobs) : bool :=
   (o_rep o =? 0) && (w || calls_ok c n (o_calls o)) &&
   if o_kind o =? K_PTR then
-    negb (any_failed (o_calls o)) && (n <? W) && layout_ok c n o && (o_amod o =? 0) && (o_ovl o =? 0) && (o_total o =? after_ok) && list_eqb (o_dig o) (digest (content tt))
+    negb (if w then hard_failed (o_calls o) else any_failed (o_calls o)) && (n <? W) && layout_ok c n o && (o_amod o =? 0) && (o_ovl o =? 0) && (o_total o =? after_ok) && list_eqb (o_dig o) (digest (content tt))
   else if o_kind o =? (if throwing then K_BAD else K_NULL) then
-    (any_failed (o_calls o) || too_big c n) && (w || balanced (o_calls o)) && (o_total o =? before) && list_eqb (o_dig o) fail_dig
+    (any_failed (o_calls o) || too_big c n) && (if w then wbalanced (o_calls o) else balanced (o_calls o)) && (o_total o =? before) && list_eqb (o_dig o) fail_dig
   else false.
 
 Definition spec_skip (l : live) (o : oobs) : bool := (o_kind o =? K_SKIP) && (o_total o =? count l) && (o_rep o =? 0).
@@ -427,6 +451,17 @@ Fixpoint spec_steps (w : bool) (c : cfg) (l : live) (idx : N) (ops : list op) (o
   | _, _ => false
   end.
 
+(* reallocations of a live block that returned a pointer.  The wrapper does not see a reallocation (the detector calls
+   PlatformSpecificRealloc directly), so the tracking node of a block that moved stays in the wrapper's list for good: with the
+   wrappers installed at most one region per such operation may remain at the end *)
+Fixpoint moved (ops : list op) (obs : list oobs) : N :=
+  match ops, obs with
+  | o :: r, ob :: obr => (match o with ORealloc (Some _) _ => if o_kind ob =? K_PTR then 1 else 0 | _ => 0 end) + moved r obr
+  | _, _ => 0
+  end.
+
 Definition spec (sc : scenario) (o : obs) : bool :=
   Bool.eqb (ob_guard o) (guard_on (sc_cfg sc)) && (ob_ns o =? node_size (sc_cfg sc)) && Bool.eqb (ob_wrap o) (sc_wrap sc) &&
-  spec_steps (sc_wrap sc) (sc_cfg sc) [] 0 (sc_ops sc) (ob_ops o) (ob_end_live o) && (ob_end_total o =? 0) && (ob_end_rep o =? 0).
+  Bool.eqb (ob_faults o) (negb (no_faults (sc_fail sc))) &&
+  spec_steps (sc_wrap sc) (sc_cfg sc) [] 0 (sc_ops sc) (ob_ops o) (ob_end_live o) && (ob_end_total o =? 0) && (ob_end_rep o =? 0) &&
+  (ob_end_leak o <=? (if sc_wrap sc then moved (sc_ops sc) (ob_ops o) else 0)).
